@@ -122,6 +122,11 @@ class RefInsertion:
     self.value = value
 
 
+def _it(values, op):
+  """The call form of an iterable argument: the list itself or a one-shot generator over it."""
+  return (v for v in values) if op.get('gen') else values
+
+
 def _slice(s):
   return slice(s[0], s[1], s[2])
 
@@ -147,7 +152,7 @@ def ref_list_step(p, op):
   elif o == 'contains':
     r = d(op['v']) in p
   elif o == 'index':
-    r = p.index(d(op['v']))
+    r = p.index(d(op['v'])) if 'start' not in op else p.index(d(op['v']), op['start'], op['stop'])
   elif o == 'count':
     r = p.count(d(op['v']))
   elif o == 'get_bad':
@@ -159,7 +164,7 @@ def ref_list_step(p, op):
   elif o == 'set':
     p[op['i']] = d(op['v'])
   elif o == 'setslice':
-    p[_slice(op['s'])] = d(op['vs'])
+    p[_slice(op['s'])] = _it(d(op['vs']), op)
   elif o == 'del':
     del p[op['i']]
   elif o == 'delslice':
@@ -169,7 +174,7 @@ def ref_list_step(p, op):
   elif o == 'insert':
     p.insert(op['i'], d(op['v']))
   elif o == 'extend':
-    p.extend(d(op['vs']))
+    p.extend(_it(d(op['vs']), op))
   elif o == 'pop':
     r = p.pop() if op['i'] is None else p.pop(op['i'])
   elif o == 'remove':
@@ -181,7 +186,7 @@ def ref_list_step(p, op):
   elif o == 'reverse':
     p.reverse()
   elif o == 'iadd':
-    p += d(op['vs'])
+    p += _it(d(op['vs']), op)
   elif o == 'imul':
     p *= op['n']
   elif o == 'add':
@@ -189,6 +194,8 @@ def ref_list_step(p, op):
     _purge(r)
   elif o == 'mul':
     r = p * op['n']
+  elif o == 'rmul':
+    r = op['n'] * p
   elif o == 'copy':
     r = p.copy()
   elif o == 'rebind':
@@ -253,15 +260,18 @@ def ref_dict_step(p, op):
       r = p.setdefault(op['k'], v)
   elif o == 'setdefault1':
     r = p.setdefault(op['k'])
-  elif o in ('update', 'ior', 'update_pairs'):
-    for k, vj in op['pairs']:
+  elif o == 'get1':
+    r = p.get(op['k'])
+  elif o in ('update', 'ior', 'update_pairs', 'update_kw', 'ior_pairs'):
+    # dict.update(other, **kw): the entries of `other` in order, then the keyword arguments in order
+    for k, vj in op['pairs'] + op.get('kw', []):
       assign(k, d(vj))
   elif o == 'copy':
     r = p.copy()
   elif o == 'rebind':
-    if not op['pairs']:
+    if not op['pairs'] and not op.get('kw'):
       raise ValueError('There are no values to rebind.')
-    for k, vj in op['pairs']:
+    for k, vj in op['pairs'] + op.get('kw', []):
       assign(k, d(vj))
   else:
     raise AssertionError(o)
@@ -285,7 +295,7 @@ def pg_list_step(pg, x, op):
   elif o == 'contains':
     r = d(op['v']) in x
   elif o == 'index':
-    r = x.index(d(op['v']))
+    r = x.index(d(op['v'])) if 'start' not in op else x.index(d(op['v']), op['start'], op['stop'])
   elif o == 'count':
     r = x.count(d(op['v']))
   elif o == 'get_bad':
@@ -297,7 +307,7 @@ def pg_list_step(pg, x, op):
   elif o == 'set':
     x[op['i']] = d(op['v'])
   elif o == 'setslice':
-    x[_slice(op['s'])] = d(op['vs'])
+    x[_slice(op['s'])] = _it(d(op['vs']), op)
   elif o == 'del':
     del x[op['i']]
   elif o == 'delslice':
@@ -307,7 +317,7 @@ def pg_list_step(pg, x, op):
   elif o == 'insert':
     x.insert(op['i'], d(op['v']))
   elif o == 'extend':
-    x.extend(d(op['vs']))
+    x.extend(_it(d(op['vs']), op))
   elif o == 'pop':
     r = x.pop() if op['i'] is None else x.pop(op['i'])
   elif o == 'remove':
@@ -319,13 +329,15 @@ def pg_list_step(pg, x, op):
   elif o == 'reverse':
     x.reverse()
   elif o == 'iadd':
-    x += d(op['vs'])
+    x += _it(d(op['vs']), op)
   elif o == 'imul':
     x *= op['n']
   elif o == 'add':
     r = x + d(op['vs'])
   elif o == 'mul':
     r = x * op['n']
+  elif o == 'rmul':
+    r = op['n'] * x
   elif o == 'copy':
     r = x.copy()
   elif o == 'rebind':
@@ -363,22 +375,33 @@ def pg_dict_step(pg, x, op):
     r = x.setdefault(op['k'], d(op['v']))
   elif o == 'setdefault1':
     r = x.setdefault(op['k'])
+  elif o == 'get1':
+    r = x.get(op['k'])
   elif o == 'update':
-    x.update({k: d(vj) for k, vj in op['pairs']})
+    x.update({k: d(vj) for k, vj in op['pairs']}, **{k: d(vj) for k, vj in op.get('kw', [])})
   elif o == 'update_pairs':
-    x.update([(k, d(vj)) for k, vj in op['pairs']])
+    pairs = [(k, d(vj)) for k, vj in op['pairs']]
+    x.update(iter(pairs) if op.get('gen') else pairs, **{k: d(vj) for k, vj in op.get('kw', [])})
+  elif o == 'update_kw':
+    x.update(**{k: d(vj) for k, vj in op['kw']})
   elif o == 'ior':
     x |= {k: d(vj) for k, vj in op['pairs']}
+  elif o == 'ior_pairs':
+    x |= [(k, d(vj)) for k, vj in op['pairs']]
   elif o == 'copy':
     r = x.copy()
   elif o == 'rebind':
-    x.rebind({k: d(vj) for k, vj in op['pairs']})
+    kw = {k: d(vj) for k, vj in op.get('kw', [])}
+    if op['pairs'] or not kw:
+      x.rebind({k: d(vj) for k, vj in op['pairs']}, **kw)
+    else:
+      x.rebind(**kw)
   else:
     raise AssertionError(o)
   return r, x
 
 
-READ_OPS = {'get', 'getslice', 'len', 'contains', 'index', 'count', 'get_bad', 'getd', 'add', 'mul', 'copy'}
+READ_OPS = {'get', 'getslice', 'len', 'contains', 'index', 'count', 'get_bad', 'getd', 'get1', 'add', 'mul', 'rmul', 'copy'}
 LIST_MUT = ['set', 'setslice', 'del', 'delslice', 'append', 'insert', 'extend', 'pop', 'remove', 'clear',
             'sort', 'reverse', 'iadd', 'imul', 'rebind']
 
@@ -424,6 +447,8 @@ def battery(pg, kind, x, p):
   else:
     chk('iter', lambda: same(list(iter(x)), list(iter(p))))
     chk('keys', lambda: same(list(x.keys()), list(p.keys())))
+    chk('reversed', lambda: same(list(reversed(x)), list(reversed(p))))
+    chk('popitem-order', lambda: same(list(dict.copy(x).popitem())[0:1], list(dict(p).popitem())[0:1]) if p else len(x) == 0)
     chk('values', lambda: same(enc(list(x.values())), enc(list(p.values()))))
     chk('items', lambda: same(enc([list(kv) for kv in x.items()]), enc([list(kv) for kv in p.items()])))
     chk('getitem', lambda: all(same(enc(x[k]), enc(p[k])) for k in p))
@@ -471,6 +496,10 @@ TIE_POOLS = {
 }
 NESTED = [[], [1, 2], ['a'], {'d': []}, {'d': [['k', 1]]}, [[1], {'d': [['a', [2]]]}],
           {'d': [['x', {'d': [['y', 0]]}], [3, [True]]]}, [None, [[]]]]
+KW_KEYS = ['a', 'b', 'c', 'k', 'd', 'x', 'y', 'zz', 'é', 'w']
+RESERVED_KW = {'value_spec', 'onchange_callback', 'allow_partial', 'accessor_writable', 'sealed', 'root_path',
+               'pass_through', 'as_object_attributes_container', 'other', 'self', 'raise_on_no_change',
+               'notify_parents', 'skip_notification', 'path_value_pairs', ''}
 KEYS = ['a', 'b', 'c', 'k', 'a.b', 'x[0]', '', 0, 1, 2, -1, 10, 'd', 'é', True, False, True, False, 1, 0]
 
 
@@ -567,7 +596,7 @@ class Gen:
         (6, 'set'), (8, 'setslice'), (4, 'del'), (5, 'delslice'), (6, 'append'), (6, 'insert'), (5, 'extend'),
         (5, 'pop'), (4 * tie, 'remove'), (1, 'clear'), (3 * tie * 2, 'sort'), (2, 'reverse'), (3, 'iadd'), (2, 'imul'),
         (5, 'rebind'), (4, 'get'), (6, 'getslice'), (1, 'len'), (2 * tie, 'contains'), (2 * tie, 'index'), (2 * tie, 'count'),
-        (2, 'add'), (2, 'mul'), (1, 'copy'), (1, 'bad')])
+        (2, 'add'), (2, 'mul'), (1, 'rmul'), (1, 'copy'), (1, 'bad')])
     op = {'op': o}
     if o in ('set', 'insert'):
       op.update(i=self.index(n), v=self.val(allow_missing=True))
@@ -591,12 +620,14 @@ class Gen:
       op.update(vs=self.vals(0, 3, allow_missing=r.chance(0.15)))
     elif o in ('remove', 'contains', 'index', 'count'):
       op.update(v=self.present(p))
+      if o == 'index' and r.chance(0.5):       # index(x, start, stop): both bounds, negative / out of range
+        op.update(start=self.index(n), stop=self.index(n) if r.chance(0.7) else n + 5)
     elif o == 'sort':
       a = self.sort_args(p)
       if a is None:
         return self.list_op(p)
       op.update(rev=a[1], key=a[0])
-    elif o in ('imul', 'mul'):
+    elif o in ('imul', 'mul', 'rmul'):
       op.update(n=r.choice([-1, 0, 1, 2, 2, 3]))
     elif o == 'rebind':
       ks = r.sample(list(range(0, n + 3)), min(n + 3, r.weighted([(5, 1), (3, 2), (2, 3), (1, 0)])))
@@ -609,6 +640,8 @@ class Gen:
       op.update(pairs=pairs)
     elif o == 'bad':
       op['op'] = r.choice(['get_bad', 'set_bad', 'del_bad'])
+    if op['op'] in ('extend', 'iadd', 'setslice') and r.chance(0.3):
+      op['gen'] = True                            # the values arrive as a generator
     if op['op'] not in READ_OPS and r.chance(0.08):
       op['nf'] = True
     return op
@@ -618,32 +651,62 @@ class Gen:
       return self.r.choice(list(p))
     return self.r.choice(KEYS)
 
-  def pairs(self, p, lo=0, hi=3, allow_missing=True, simple=False):
+  def pairs(self, p, lo=0, hi=3, allow_missing=True, simple=False, kw=False, dups=False):
+    """Key/value pairs. kw: keys usable as keyword arguments (strings, half of them new); dups: an iterable
+    of pairs may name a key twice."""
     out, seen = [], set()
     for _ in range(self.r.randint(lo, hi)):
       k = self.key(p)
-      if k in seen or (simple and not simple_key(k)):
+      if kw:
+        k = self.r.choice(KW_KEYS) if self.r.chance(0.6) or not isinstance(k, str) or k in RESERVED_KW else k
+      if (k in seen and not (dups and self.r.chance(0.5))) or (simple and not simple_key(k)):
         continue
       seen.add(k)
       out.append([k, self.val(allow_missing)])
     return out
 
+  @staticmethod
+  def no_missing_on_repeats(op):
+    """A key named twice in one call (positional entry and keyword, or twice in an iterable of pairs) whose
+    earlier value is MISSING is outside the domain: the reference deletes and re-inserts the key, pg merges
+    the arguments first (see C02_dict_counterexample_update_merge). Such values are replaced by None."""
+    allp = op['pairs'] + op.get('kw', [])
+    for i, (k, v) in enumerate(allp):
+      if v == MISSING_J and any(k2 == k for k2, _ in allp[i + 1:]):
+        allp[i][1] = None
+
   def dict_op(self, p):
     r = self.r
     o = r.weighted([
         (8, 'set'), (4, 'del'), (4, 'pop'), (3, 'popd'), (3, 'popitem'), (1, 'clear'), (4, 'setdefault'),
-        (2, 'setdefault1'), (5, 'update'), (2, 'update_pairs'), (3, 'ior'), (4, 'rebind'), (3, 'get'), (2, 'getd'),
-        (2, 'contains'), (1, 'len'), (1, 'copy')])
+        (2, 'setdefault1'), (6, 'update'), (4, 'update_pairs'), (2, 'update_kw'), (2, 'ior'), (2, 'ior_pairs'),
+        (4, 'rebind'), (3, 'get'), (2, 'getd'), (1, 'get1'), (2, 'contains'), (1, 'len'), (1, 'copy')])
     op = {'op': o}
     if o in ('set', 'setdefault', 'popd', 'getd'):
       op.update(k=self.key(p), v=self.val(allow_missing=(o in ('set', 'setdefault'))))
-    elif o in ('del', 'pop', 'get', 'contains', 'setdefault1'):
+    elif o in ('del', 'pop', 'get', 'get1', 'contains', 'setdefault1'):
       op.update(k=self.key(p))
-    elif o in ('update', 'update_pairs', 'ior'):
-      op.update(pairs=self.pairs(p))
+    elif o in ('ior', 'ior_pairs'):
+      op.update(pairs=self.pairs(p, dups=(o == 'ior_pairs')))
+      self.no_missing_on_repeats(op)
+    elif o in ('update', 'update_pairs'):
+      # every call form: update(mapping), update(pairs_iterable), each with and without keyword arguments
+      op.update(pairs=self.pairs(p, dups=(o == 'update_pairs')))
+      if r.chance(0.5):
+        op.update(kw=self.pairs(p, lo=1, kw=True))
+      if o == 'update_pairs' and r.chance(0.3):
+        op['gen'] = True
+      self.no_missing_on_repeats(op)
+    elif o == 'update_kw':
+      op.update(pairs=[], kw=self.pairs(p, lo=1, kw=True))
     elif o == 'rebind':
       # `rebind` takes key *paths*; only keys that are not path expressions are plain keys
       op.update(pairs=self.pairs(p, simple=True))
+      if r.chance(0.35):
+        op.update(kw=self.pairs(p, lo=1, kw=True, simple=True))
+        if r.chance(0.3):
+          op['pairs'] = []
+      self.no_missing_on_repeats(op)
     if o not in READ_OPS and r.chance(0.08):
       op['nf'] = True
     return op
@@ -660,6 +723,10 @@ class Gen:
     else:
       init = {'d': self.pairs({}, 0, 4, allow_missing=False)}
       p = dec(init, REF_MISSING)
+      init_kw = self.pairs(p, 1, 3, allow_missing=False, kw=True) if r.chance(0.4) else None
+      if init_kw:
+        for k, vj in init_kw:
+          p[k] = dec(vj, REF_MISSING)
     ops = []
     for _ in range(r.randint(1, max_ops)):
       op = self.list_op(p) if kind == 'list' else self.dict_op(p)
@@ -670,6 +737,8 @@ class Gen:
         pass
     if self.pool:
       return {'kind': kind, 'init': init, 'ops': ops, 'src': 'tie-' + self.pool}
+    if kind == 'dict' and init_kw:
+      return {'kind': kind, 'init': init, 'init_kw': init_kw, 'ops': ops}      # Dict(mapping, **kw)
     return {'kind': kind, 'init': init, 'ops': ops}
 
 
@@ -734,8 +803,13 @@ class C02(Prop):
   def impl(self, case):
     import pyglove as pg     # pylint: disable=import-outside-toplevel
     kind = case['kind']
-    p = dec(case['init'], REF_MISSING)
-    x = (pg.List if kind == 'list' else pg.Dict)(dec(case['init'], pg.MISSING_VALUE))
+    if case.get('init_kw'):
+      kw = lambda m: {k: dec(v, m) for k, v in case['init_kw']}
+      p = dict(dec(case['init'], REF_MISSING), **kw(REF_MISSING))
+      x = pg.Dict(dec(case['init'], pg.MISSING_VALUE), **kw(pg.MISSING_VALUE))
+    else:
+      p = dec(case['init'], REF_MISSING)
+      x = (pg.List if kind == 'list' else pg.Dict)(dec(case['init'], pg.MISSING_VALUE))
     ref_step = ref_list_step if kind == 'list' else ref_dict_step
     pg_step = pg_list_step if kind == 'list' else pg_dict_step
     spec_steps, impl_steps = [], []
